@@ -267,6 +267,8 @@ class SimDisk:
 
 
 class EventLog:
+    trace = None  # debugging aid: set to a list to record every event line
+
     def __init__(self):
         self.h = hashlib.sha256()
         self.n = 0
@@ -274,6 +276,8 @@ class EventLog:
 
     def add(self, rec):
         s = json.dumps(rec, sort_keys=True, separators=(",", ":"), default=str)
+        if EventLog.trace is not None:
+            EventLog.trace.append(s)
         self.h.update(s.encode())
         self.h.update(b"\n")
         self.n += 1
